@@ -74,7 +74,18 @@ func behaviouralJudge(env *hx.Env, p *pg.Prog, files hx.Files, nValues int, seed
 		return res
 	}
 	if err != nil {
-		res.HarnessEr = err.Error() + "\n" + tail(raw, 3000)
+		// The driver calls every generated function with the documented signature for its method. If it
+		// does not compile because of such a call, the generated function is not callable as documented.
+		for _, m := range p.AllMethods() {
+			for _, ln := range strings.Split(raw, "\n") {
+				if strings.Contains(ln, "zz_cases_test.go") && (strings.Contains(ln, " "+m.Name+"\n") || strings.HasSuffix(ln, " "+m.Name) || strings.Contains(ln, "."+m.Name+" ") || strings.Contains(ln, " "+m.Name+" ") || strings.Contains(ln, m.Name+"(")) && !strings.Contains(ln, "ref_") {
+					res.Issues = append(res.Issues, behIssue{Property: "C08", Class: "call", Symptom: "generated-function-not-callable-with-the-documented-signature", Method: m.Name, Detail: strings.TrimSpace(ln)})
+				}
+			}
+		}
+		if len(res.Issues) == 0 {
+			res.HarnessEr = err.Error() + "\n" + tail(raw, 3000)
+		}
 		return res
 	}
 	res.Stats = rep.Stats
@@ -142,7 +153,7 @@ func behaviouralJudge(env *hx.Env, p *pg.Prog, files hx.Files, nValues int, seed
 func (r *behResult) issuesFor(prop string) []behIssue {
 	var out []behIssue
 	for _, i := range r.Issues {
-		if i.Property == prop || prop == "C16" && strings.HasPrefix(i.Symptom, "slice-") {
+		if i.Property == prop || prop == "C16" && strings.HasPrefix(i.Symptom, "slice-") || i.Property == "C08" {
 			out = append(out, i)
 		}
 	}
@@ -471,6 +482,8 @@ type c10Combo struct {
 	// method shape
 	Arg, Recv, SrcPtr, DstPtr, RetErr bool
 	Extras                            int
+	// ExtraPtrMismatch: the hook declares its additional parameters with the opposite pointer-ness
+	ExtraPtrMismatch bool
 }
 
 func (c c10Combo) legal() bool {
@@ -479,6 +492,9 @@ func (c c10Combo) legal() bool {
 	}
 	if c.HExtras && c.Extras == 0 {
 		return false // the hook declares additional parameters the method does not have
+	}
+	if c.ExtraPtrMismatch {
+		return false // additional arguments are passed as they are: int is not *int
 	}
 	return true
 }
@@ -501,6 +517,16 @@ func c10Method(c c10Combo, idx int, uf *pg.UserFuncs) pg.Method {
 		hx = m.Extras
 		if len(hx) == 0 {
 			hx = []pg.Param{{Type: "int"}} // illegal on purpose
+		}
+		if c.ExtraPtrMismatch {
+			hx = nil
+			for _, e := range m.Extras {
+				if strings.HasPrefix(e.Type, "*") {
+					hx = append(hx, pg.Param{Type: strings.TrimPrefix(e.Type, "*")})
+				} else {
+					hx = append(hx, pg.Param{Type: "*" + e.Type})
+				}
+			}
 		}
 	}
 	for _, pos := range []string{"preprocess", "postprocess"} {
@@ -538,8 +564,13 @@ func c10All() []c10Combo {
 		for h := 0; h < 16; h++ {
 			for m := 0; m < 32; m++ {
 				for ex := 0; ex <= 2; ex++ {
-					out = append(out, c10Combo{HDstPtr: h&1 != 0, HSrcPtr: h&2 != 0, HErr: h&4 != 0, HExtras: h&8 != 0, Pos: pos,
-						Arg: m&1 != 0, Recv: m&2 != 0, SrcPtr: m&4 != 0, DstPtr: m&8 != 0, RetErr: m&16 != 0, Extras: ex})
+					c := c10Combo{HDstPtr: h&1 != 0, HSrcPtr: h&2 != 0, HErr: h&4 != 0, HExtras: h&8 != 0, Pos: pos,
+						Arg: m&1 != 0, Recv: m&2 != 0, SrcPtr: m&4 != 0, DstPtr: m&8 != 0, RetErr: m&16 != 0, Extras: ex}
+					out = append(out, c)
+					if c.HExtras && ex > 0 && (!c.HErr || c.RetErr) {
+						c.ExtraPtrMismatch = true
+						out = append(out, c)
+					}
 				}
 			}
 		}
@@ -636,6 +667,8 @@ func c10Enumeration(env *hx.Env, rec *hx.Recorder, t *testing.T, judge func(*pg.
 			why := "error-returning hook on a method without error result"
 			if c.HExtras && c.Extras == 0 {
 				why = "hook with additional parameters on a method without additional arguments"
+			} else if c.ExtraPtrMismatch {
+				why = "hook whose additional parameters differ in pointer-ness from the method's additional arguments"
 			}
 			rec.Report(t, hx.Failf("C10|hook:"+c.Pos+"|unfit-hook-accepted", "%s is accepted (exit %d, crashed %v): %+v\n%s\n%s", why, exit, crashed, c, q.RenderSetup(), tail(stderr, 400)), progCase(q, q.Files(), "unfit-hook"))
 		}
@@ -650,7 +683,7 @@ func TestC10(t *testing.T) {
 	pf.Notations = true
 	pf.HookHeavy = true
 	runBehavioural(t, behOpts{id: "C10", level: "exploration",
-		rule: "(a) enumeration of hook shape {destination by pointer/value} x {source by pointer/value} x {error} x {additional parameters} x position {pre, post, both} x method shape {style, receiver, source pointer/value, destination pointer/value, error result, 0-2 additional arguments (int, *LInner)} = 4608 combinations (thorough: all; quick: a seeded sixth): " +
+		rule: "(a) enumeration of hook shape {destination by pointer/value} x {source by pointer/value} x {error} x {additional parameters} x position {pre, post, both} x method shape {style, receiver, source pointer/value, destination pointer/value, error result, 0-2 additional arguments (int, *LInner)} = 4608 combinations plus 1152 with additional parameters of the opposite pointer-ness (thorough: all; quick: a seeded sixth): " +
 			"fitting combinations are generated 16 methods per file and executed - hooks are instrumented (record a deep dump of every argument and the pointer identities; a by-pointer preprocess hook overwrites every destination field) - unfit hooks (error without error result, additional parameters the method lacks) must be rejected; " +
 			"(b) rapid programs with hooks next to notations, imported hooks (odd-layout package) and all non-reverse shapes. Oracle: trace starts with the pre hook and ends with the post hook, each exactly once; what each hook observed (values, operand identity W/R/other, extras in order) equals what the reference observed; " +
 			"fields the copy assigns overwrite the pre hook's values, unassigned fields keep them; the post hook sees the final state. Non-trivial: hook whose pointer-ness differs from the operand's, or with extras, or imported; evaluations = executed value sets.",
